@@ -229,7 +229,7 @@ def work(job):
                             fh.write(files[fn])
                 for fn in files:
                     if fn.endswith('.c'):
-                        r = subprocess.run(['gcc', '-fsyntax-only', '-w', '-Werror=implicit-function-declaration', '-I', os.path.join(REPO, 'w2c2'), '-I', wd, os.path.join(wd, fn)], stdout=subprocess.PIPE, stderr=subprocess.PIPE)
+                        r = subprocess.run(['gcc', '-c', '-o', '/dev/null', '-w', '-Werror=implicit-function-declaration', '-I', os.path.join(REPO, 'w2c2'), '-I', wd, os.path.join(wd, fn)], stdout=subprocess.PIPE, stderr=subprocess.PIPE)
                         res['runs'] += 1
                         if r.returncode != 0:
                             res['problems'].append(('file-does-not-compile', desc, '%s: %s' % (fn, r.stderr.decode(errors='replace')[:200]))); break
